@@ -122,22 +122,32 @@ impl Dag {
     // By default, all nodes are false, and calling this is required to make a
     // subtree visible during graph traversals.
     pub fn set_subtree_visibility(&mut self, node: usize, visible: bool) -> Result<(), GraphError> {
-        let mut work: VecDeque<usize> = VecDeque::new();
+        // Depth-first walk; `active` holds exactly the nodes on the current path, so
+        // meeting one of them again is a cycle, while meeting any other visited node
+        // again (e.g. the shared dependency of a diamond) is not.
+        let mut stack: Vec<(usize, usize)> = vec![(node, 0)];
         let mut visited = HashSet::new();
         let mut active = HashSet::new();
-        work.push_front(node);
-        while let Some(n) = work.pop_front() {
-            self.visibility[n] = visible;
-            visited.insert(n);
-            active.remove(&n);
-            for &depn in &self.adj_list[n] {
-                if active.contains(&depn) {
-                    let label = self.get_label_by_node(&depn)?;
-                    return Err(GraphError::Cycle(depn, label.to_owned()));
+        self.visibility[node] = visible;
+        visited.insert(node);
+        active.insert(node);
+        while let Some((n, next)) = stack.last_mut() {
+            match self.adj_list[*n].get(*next).copied() {
+                Some(depn) => {
+                    *next += 1;
+                    if active.contains(&depn) {
+                        let label = self.get_label_by_node(&depn)?;
+                        return Err(GraphError::Cycle(depn, label.to_owned()));
+                    }
+                    if visited.insert(depn) {
+                        self.visibility[depn] = visible;
+                        active.insert(depn);
+                        stack.push((depn, 0));
+                    }
                 }
-                if !visited.contains(&depn) {
-                    work.push_back(depn);
-                    active.insert(depn);
+                None => {
+                    active.remove(n);
+                    stack.pop();
                 }
             }
         }
